@@ -283,13 +283,17 @@ def _profiles(IM, origin, rmax, order, odd, weights, verbose):
     else:
         same_weights = np.array_equal(_weights, weights)
     if _prm != prm or not same_weights:
+        # (the cached object must not refer to the caller's array, which might
+        #  be changed in place later)
+        weights_copy = None if weights is None else np.array(weights, copy=True)
         dst = Distributions(origin=origin, rmax=rmax, order=order, odd=odd,
-                            weights=weights, use_sin=False, method='linear')
+                            weights=weights_copy, use_sin=False,
+                            method='linear')
         c = dst(IM).cos()
         # (cached only now: both lines above can raise for wrong parameters,
         #  and a half-initialized object must not be left in the cache)
         _prm = prm
-        _weights = None if weights is None else np.array(weights, copy=True)
+        _weights = weights_copy
         _dst = dst
         if verbose:
             print('(new Distributions object created)')
